@@ -81,6 +81,10 @@ class GraphHooks(Hooks):
         if name == 'get_subgraph' and len(a) == 1:
             return [(path, self.new_graph(I, App('subgraph', sg, a[0]), path,
                                           node))]
+        if name == 'clone' and not a:
+            gci = I.class_of(g, path)
+            return [(path, self.new_graph(I, App('gcopy', sg), path, node,
+                                          ci=gci))]
         if name == 'get_reversed_graph' and not a:
             return [(path, self.new_graph(I, App('reversed', sg), path,
                                           node))]
@@ -114,6 +118,29 @@ class GraphHooks(Hooks):
 
     def call(self, I, fv, args, kw, path, node):
         return self.graph_call(I, fv, args, kw, path, node)
+
+    def graph_construct(self, I, ci, args, kw, path, node):
+        """DiGraph(V, E) / Kripke(S, S0, R, L) built directly"""
+        if not (isinstance(ci, ClassInfo) and
+                ci.is_subclass_of(self.digraph)):
+            return None
+        kwd = dict(kw)
+        a = list(args)
+        none = Const(None)
+        if ci.is_subclass_of(self.kripke):
+            names = ['S', 'S0', 'R', 'L']
+        else:
+            names = ['V', 'E']
+        vals = {}
+        for i, n in enumerate(names):
+            vals[n] = a[i] if i < len(a) else kwd.get(n, none)
+        V = I.snapshot(vals[names[0]], path)
+        E = I.snapshot(vals['R' if 'R' in vals else 'E'], path)
+        op = 'mkkripke' if ci.is_subclass_of(self.kripke) else 'mkgraph'
+        return [(path, self.new_graph(I, App(op, V, E), path, node, ci=ci))]
+
+    def construct(self, I, ci, args, kw, path, node):
+        return self.graph_construct(I, ci, args, kw, path, node)
 
     def iter_elem_type(self, I, iterable, path):
         return None
@@ -374,6 +401,29 @@ class Evaluator(object):
             return a >= b
         raise NotEvaluable('comparison ' + o)
 
+    def op_exists(self, var, it, conds):
+        if isinstance(var, Const):
+            raise NotEvaluable('exit condition of a while loop')
+        coll = self.ev(it)
+        if isinstance(coll, dict):
+            coll = list(coll.keys())
+        for e in coll:
+            self.env[var] = e
+            try:
+                ok = True
+                for cp in conds.items:
+                    c, pol = cp.items
+                    if self.is_marker(c):
+                        continue
+                    if bool(self.ev(c)) != pol.v:
+                        ok = False
+                        break
+                if ok:
+                    return True
+            finally:
+                del self.env[var]
+        return False
+
     def op_len(self, a):
         return len(self.ev(a))
 
@@ -442,6 +492,28 @@ class Evaluator(object):
 
     def op_reach(self, g, X):
         return g_reach(self.ev(g), self.ev(X))
+
+    def op_gcopy(self, g):
+        return self.ev(g)
+
+    def op_mkgraph(self, V, E):
+        V = self.ev(V)
+        E = self.ev(E)
+        succ = {}
+        for n in (V or ()):
+            succ[n] = set()
+        for (s, d) in (E or ()):
+            succ.setdefault(s, set()).add(d)
+            succ.setdefault(d, set())
+        return CG(succ.keys(), succ)
+
+    def op_mkkripke(self, V, E):
+        g = self.op_mkgraph(V, E)
+        for n in g.nodes:
+            if not g.succ[n]:
+                raise GraphError('Kripke structure with a non-total '
+                                 'transition relation (state %r)' % (n,))
+        return g
 
     def op_sccs(self, g):
         return g_sccs(self.ev(g))
